@@ -26,6 +26,9 @@ func (tcSuite) Gen(r *rand.Rand, i int) Case {
 	nextOpen := int64(-1)
 	armed := 0
 	nops := 1 + r.Intn(40)
+	if r.Intn(25) == 0 {
+		nops = 200 + r.Intn(300) // a long history: state that only goes wrong after it accumulates
+	}
 	for j := 0; j < nops; j++ {
 		switch x := r.Intn(100); {
 		case x < 10:
